@@ -425,10 +425,61 @@ def run_case(case):
             _run_history(out, case, work)
         else:
             raise HarnessError(f'unknown kind of case {kind!r}')
+        _other_thread_probe(out)
     finally:
         work.close()
     out.evals = max(1, out.evals)
     return out
+
+
+PROBE_LISTING = 'ttsSimplePacket20.d.PARA.res.ceav5'     # 8 KiB, one edition, parses in ~30 ms
+PROBE_WAIT = 60.0
+
+
+def _other_thread_probe(out):
+    """'whatever was parsed earlier in the same process': after the parses of this case (many of
+    which failed with the parser's error), a complete listing is parsed from ANOTHER thread.  It
+    must come back (a lock or any process-wide state left behind by a failed parse would block it:
+    the scheduler parses listings from worker threads) and give the reference result.  Waiting
+    2 x 60 s for a 30 ms parse; the stuck thread is a daemon."""
+    import threading
+    if _STATE.get('probe-stuck'):
+        out.labels.append('other-thread-probe:skipped-already-stuck')
+        return
+    data = T.shipped_by_name(PROBE_LISTING)
+    work = T.Workfile()
+    path = work.put(data)
+    box = {}
+
+    def body():
+        box['obs'] = T.observe(path)
+    thread = threading.Thread(target=body, daemon=True, name='c11-other-thread')
+    thread.start()
+    thread.join(PROBE_WAIT)
+    if thread.is_alive():
+        thread.join(PROBE_WAIT)
+    out.evals += 1
+    if thread.is_alive():
+        _STATE['probe-stuck'] = True      # the lock stays taken in this process: report once
+        fail = Failure('hang', 'C11/hang/other-thread-after-earlier-parses',
+                       f'parsing the complete listing {PROBE_LISTING} from a second thread did not come '
+                       f'back within {2 * PROBE_WAIT:.0f} s after the parses of this case in the main thread')
+        out.failures.append(fail)
+        return
+    work.close()
+    out.labels.append('other-thread-probe')
+    ref = _STATE.setdefault('probe-ref', {})
+    dig = T.digest(box.get('obs'))
+    if 'digest' not in ref:
+        ref['digest'] = dig
+    if box.get('obs', {}).get('scan') != 'ok' or not any(
+            res[0] == 'ok' for res in box['obs']['eds'].values()) or dig != ref['digest']:
+        out.failures.append(Failure(
+            'history_outcome', 'C11/history_outcome/other-thread-probe',
+            f'the complete listing {PROBE_LISTING} parsed from a second thread gave '
+            f'{_klass(box.get("obs", {}).get("scan"))} / '
+            f'{[_klass(r) for r in box.get("obs", {}).get("eds", {}).values()]} or a result that '
+            'differs from the first probe of this process'))
 
 
 def _synth_labels(out, recipe, data):
